@@ -169,7 +169,7 @@ func (c *Checker) reportS0(rule string, fk *fixedKernel) bool {
 	}
 	switch {
 	case fk.err != nil:
-		c.undecided(rule, fk.inst, p, fk.err.Error())
+		c.e4report(rule, fk.inst, p, fk.err)
 		return false
 	case fk.refute != "":
 		c.refuted(rule, fk.inst, p, fk.refute, fk.witness)
@@ -183,7 +183,39 @@ func (c *Checker) reportS0(rule string, fk *fixedKernel) bool {
 	return true
 }
 
+// depthInvariant checks the premise the numeric rules rest on: the bit depth (and channel count) of an existing
+// buffer is never written, so it stays the value Alloc derived from the element type (Slice copies it).
+func depthInvariant(c *Checker, rule string) {
+	c.rule(rule, "premise: no function writes the bitDepth or channels field of an existing buffer (set by Alloc, copied by Slice), so a buffer's depth is the depth of its element type", 1)
+	ok := true
+	detail := ""
+	n := 0
+	for _, fn := range c.entryFunctions() {
+		s := c.Summary(fn)
+		n++
+		for _, o := range s.Outcomes {
+			for _, e := range o.St.effects {
+				if e.Kind != EStoreField || e.Obj == nil || !isBufferType(e.Obj.Typ) {
+					continue
+				}
+				fi := bufferFields(e.Obj.Typ)
+				if fi == nil {
+					ok, detail = false, "cannot resolve the fields of Buffer"
+					continue
+				}
+				if len(e.Path) == 0 {
+					ok, detail = false, fmt.Sprintf("%s overwrites the whole header of an existing buffer at %s", shortFn(c.W, fn), c.effPos(e))
+				} else if e.Path[0] == fi.bitDepth || e.Path[0] == fi.channels {
+					ok, detail = false, fmt.Sprintf("%s writes the bit depth / channel count of an existing buffer at %s", shortFn(c.W, fn), c.effPos(e))
+				}
+			}
+		}
+	}
+	c.expect(ok, rule, "package/header-fields", "", fmt.Sprintf("%d functions: bitDepth and channels of existing buffers are never written", n), detail)
+}
+
 func checkC06(c *Checker) {
+	depthInvariant(c, "C06-D0")
 	c.rule("C06-S0", "soundness of every stored value: congruence modulus = destination width and the ideal form stays inside the destination range on every piece (the stored code is the ideal form for every source value)", 121)
 	c.rule("C06-a", "order: every piece is monotone non-decreasing and images are ordered at every piece boundary", 121)
 	c.rule("C06-b", "reference levels: lowest, zero-amplitude and highest source code map to the corresponding destination codes", 121)
@@ -286,6 +318,7 @@ func offsetOf(k numKind, depth int64) *big.Int {
 }
 
 func checkC07(c *Checker) {
+	depthInvariant(c, "C07-D0")
 	c.rule("C07-S0", "soundness of every stored value (as C06-S0)", 121)
 	c.rule("C07-a", "accuracy: when narrowing by k bits the result amplitude is floor or ceil of amplitude/2^k on every piece; at equal depth it is the amplitude itself", 60)
 	c.rule("C07-b", "round trip: for every widening pair the composition with the narrowing conversion back to the original format is the identity on every piece", 30)
